@@ -82,6 +82,11 @@ CLAIMED = {
          "Writers (sync/async, 1-8 callers, batch timers 1 ms..10 min, retries and back-off, slow / silent / unreachable brokers), group and partition Readers (rebalances in progress, blocked fetches, commits in flight) and Transports are closed or have their contexts cancelled at seeded points; Close and cancelled calls must return within a bound derived from the configured timeouts, every accepted message must be sent or have exhausted its attempts with its Completion run before Close returns, after Close WriteMessages fails with io.ErrClosedPipe and FetchMessage/ReadMessage with io.EOF, the group was left, no request is journaled after Close returned, no library goroutine and no connection of the closed object remains.",
          "trusted: bounds are wall-clock (configured time-outs <= 200 ms against a 20 s bound) and a breach is only reported after it repeats on an idle re-run; goroutines are attributed to the library by stack frames; cases run one at a time per process",
          "DESIGN.md section 5 C09"),
+ "C10": ("exploration",
+         "Go race detector (verifrun built with -race -tags verif, GORACE halt_on_error=0 log_path per shard) over generated concurrent client programs per documented type plus the scenario engines of C02/C03/C05/C06/C09/C15; reports are parsed, attributed by the innermost frames of the two accesses and deduplicated by function pair; a tracker records which method pairs were in flight together",
+         "k goroutines each run a random sequence from the menu of exported methods of Conn (+ Batches shared between goroutines, also after Close), Writer (WriteMessages/Stats/Close under the C01 fault scripts), Reader with and without group (FetchMessage/ReadMessage/CommitMessages/SetOffset/Offset/Lag/Stats/Close under cuts and error codes), Client and Transport (8 Client methods, raw RoundTrips of 23 APIs, CloseIdleConnections, short idle and metadata TTLs), every built-in Balancer and every compression codec from 32 goroutines. Every deduplicated report in which kafka-go code takes part is a violation. Held on the executions run: the detector only sees accesses that were executed.",
+         "trusted: the Go race detector (no false positives; misses races between accesses that did not both execute); reports whose two accesses are both harness code fail the run as a harness error; the Transport Resolver path and Reader.SetOffsetAt/ReadLag/Config are not driven",
+         "DESIGN.md section 5 C10"),
  "C20": ("exploration",
          "runtime monitor in child processes (RLIMIT_AS 4 GiB, one decode at a time): process liveness, recovered panics, allocation accounting (runtime/metrics heap allocs, confirmed by an exact second decode) and outcome class for systematically mutated well-formed response frames through protocol.ReadResponse and through kafka.Client over the fake network",
          "For every response type and version (reference-encoded with a field map where a schema exists, library-encoded otherwise) every length/count field - frame size, string/bytes/array lengths fixed and compact, tagged-field counts and sizes, record-set size, batch length, message size, wrapper value length, record count and varint lengths - is set to -1, -2, 0, len-1, len+1, remaining+1, 2^15-1, 2^31-1, -2^31 and for varints 2^31, 2^32, 2^63, 2^64-1 and an unterminated varint; the decode must end as an error or a message, without panic or process death, allocating at most 1 MiB + 64 x frame length. CRC-covered fields with a recomputed CRC are informational.",
